@@ -16,6 +16,27 @@ CHECKS = {
             "relative bounds, and monotonicity/symmetry/finiteness/inverse relations are checked on log-spaced grids "
             "down to 1e-12. Sampling of a 2-parameter continuous domain: exploration level.",
             "DESIGN.md §2 C17", TRUST),
+    "C01": ("reference-model monitor: (x, v, sum of squares, defect) returned by each solver under ASan/UBSan checked "
+            "against the defining equations (v=Ax-b, A'Pv=0, v'Pv, rank, minimum norm over the subset) with numpy on the original problem",
+            "Random problems with exactly constructed rank deficiency, banded/full covariance blocks and "
+            "regularisation subsets, 4 algorithms x 2 entry points; every answer is tested against the normal "
+            "equations and the minimum-norm condition evaluated independently. Sampled inputs: exploration.",
+            "DESIGN.md §2 C01", TRUST),
+    "C02": ("relational monitor over recorded runs: the same input solved by the four algorithms, results compared pairwise "
+            "(solver level through Adj; network level through the real gama-local binary)",
+            "Pairwise equality of defect, x, v, sum of squares, all cofactors across the four algorithms with a "
+            "conditioning-scaled tolerance; sampled inputs: exploration.",
+            "DESIGN.md §2 C02", TRUST),
+    "C03": ("reference-model monitor: full q_xx / q_bb matrices requested from each solver under ASan/UBSan, checked for "
+            "symmetry, PSD, NQN=N, QNQ=Q, equality with T N+ T' and A Q A', projector identities",
+            "All index pairs (both triangles, outside the envelope too) of every generated problem are compared "
+            "with the numpy generalised inverse of the chosen regularisation; exploration.",
+            "DESIGN.md §2 C03", TRUST),
+    "C04": ("history monitor with a fresh-object oracle: random and bounded-exhaustive API call sequences on live solver "
+            "objects, every answer compared with a brand-new object's; failing histories delta-debugged to a minimal sequence",
+            "Histories of length <= 16 (random) and all histories of length <= 2/3 over a reduced alphabet, "
+            "4 algorithms x 2 entry points, regular and singular systems; exploration of the history space.",
+            "DESIGN.md §2 C04", TRUST),
 }
 
 NOT_APPLICABLE = {}
